@@ -84,7 +84,7 @@ def check(chk, sc, src, d0, d1, stale, reord=()):
 
 def run(chk):
     dump = chk.scratch.file("seqsim.dump")
-    r = tlc.must_pass(tlc.run("SeqSimMC", "SeqSimMC.cfg", chk.scratch, dump=dump, timeout=1800), "SeqSimMC")
+    r = tlc.must_pass(tlc.run("SeqSimMC", "SeqSimMC.thorough.cfg" if chk.tier == "thorough" else "SeqSimMC.cfg", chk.scratch, dump=dump, timeout=1800), "SeqSimMC")
     chk.add_tlc(r, "SeqSimMC")
     init, final = {}, {}
     for st in tlaval.parse_dump(dump, want=lambda b: "pc = 0" in b or "fin = TRUE" in b):
